@@ -16,6 +16,7 @@ type G struct {
 	NoBigExponent   bool
 	// do not start a new smooth command (S/T) right after another curve command
 	NoSmoothAfterCurve bool
+	ents               bool // the document declares the entities st0 and c0
 }
 
 func (x *G) n(l string, max int) int           { return rapid.IntRange(0, max).Draw(x.T, l) }
@@ -140,8 +141,16 @@ func (x *G) Doc(inline bool) string {
 	if !inline && x.chance("prolog", 3) {
 		sb.WriteString("<?xml version=\"1.0\" encoding=\"UTF-8\"?>\n")
 	}
+	x.ents = false
 	if !inline && x.chance("doctype", 4) {
-		sb.WriteString("<!DOCTYPE svg PUBLIC \"-//W3C//DTD SVG 1.1//EN\" \"http://www.w3.org/Graphics/SVG/1.1/DTD/svg11.dtd\">\n")
+		if x.chance("subset", 2) {
+			// an internal subset that declares entities, the way some editors write styles and colours
+			x.Feats["doctype-internal-subset"]++
+			x.ents = true
+			sb.WriteString("<!DOCTYPE svg [<!ENTITY st0 \"fill:#FF0000;\">" + x.pick("subsetws", []string{"", " ", "\n"}) + "<!ENTITY c0 '#00ff00'>]" + x.pick("subsetend", []string{"", " ", "\n"}) + ">\n")
+		} else {
+			sb.WriteString("<!DOCTYPE svg PUBLIC \"-//W3C//DTD SVG 1.1//EN\" \"http://www.w3.org/Graphics/SVG/1.1/DTD/svg11.dtd\">\n")
+		}
 	}
 	if x.chance("comment0", 4) {
 		sb.WriteString("<!-- c -->")
@@ -207,6 +216,11 @@ func (x *G) element(depth int) string {
 		}
 		sb.WriteString(x.pick("pathend", []string{"/>", "></path>", "> </path>"}))
 	case 4:
+		if x.ents && x.chance("useents", 2) {
+			x.Feats["entity-reference-in-attribute"]++
+			sb.WriteString("<rect width=\"1\" height=\"2\" style=\"&st0;\" stroke=\"&c0;\"/>")
+			break
+		}
 		sb.WriteString("<rect" + x.attr("x", x.pick("len", lengths)) + x.attr("y", x.pick("len", lengths)) + x.attr("width", x.pick("len", lengths)) + x.attr("height", x.pick("len", lengths)) + x.attr("fill", x.pick("color", colors)) + "/>")
 	case 5:
 		x.Feats["use-xlink"]++
